@@ -697,6 +697,24 @@ def v_getattr(interp, v, name):
         return lambda axis=None, **k: (only_kw("std", k, ddof=ANY), _s.reduce_opaque(interp, v, axis, "std", nonneg=True))[1]
     if name == "split" and z3.is_string(v.t) and not v.axes:
         return lambda sep=None, maxsplit=-1: str_split(v, sep, maxsplit)
+    if name in ("div", "truediv", "divide"):
+
+        def div(other, fill_value=None, **kw):
+            """Series.div(other, fill_value): a cell missing on ONE side is replaced by fill_value before dividing; what the
+            division itself produces (0/0 -> NaN, x/0 -> inf) is NOT replaced"""
+            only_kw("Series.div", kw, axis=ANY, level=(None,))
+            _use("Series.div(other, fill_value=f): cells missing on exactly one side are filled with f first; 0/0 stays NaN, x/0 stays infinite")
+            o = other if isinstance(other, V) else V(to_term(other))
+            if fill_value is None:
+                return v / o
+            f = real(to_term(fill_value))
+            an = v.nan if v.nan is not None else z3.BoolVal(False)
+            bn = o.nan if o.nan is not None else z3.BoolVal(False)
+            a2 = V(z3.If(z3.And(an, z3.Not(bn)), f, real(v.t)), v.axes, v.series, z3.And(an, bn) if v.nan is not None else None, v.inf, v.meta)
+            b2 = V(z3.If(z3.And(bn, z3.Not(an)), f, real(o.t)), o.axes, o.series, z3.And(an, bn) if o.nan is not None else None, o.inf, o.meta)
+            return a2 / b2
+
+        return div
     if name == "cumsum":
         from . import sums as _s
 
